@@ -42,6 +42,21 @@ pub fn corpus() -> Vec<(&'static str, IncCfg, Vec<Op>)> {
     for _ in 0..104 { long.push(Op::NewEpoch); long.push(Op::Snapshot); }
     long.extend(vec![Op::Claim { sender: 2 }, Op::Claim { sender: 2 }, Op::Claim { sender: 3 }, Op::CloseFlow { sender: 1, ident: Ident::Id(1) }]);
     v.push(("claim_beyond_epoch_cap", c.clone(), long));
+    // a flow whose start epoch lies in the past, one staker who claimed before it existed and one who never claimed: whatever
+    // the late claim does, the flow never pays more than it was funded with and the other flow's funds stay untouched
+    let c = cfg_base(10, 0);
+    let mut past: Vec<Op> = vec![
+        Op::OpenPosition { sender: 1, funds: vec![], allow: vec![(10, 1_000)], amount: 1_000, dur: 86_400, receiver: None },
+        Op::OpenPosition { sender: 2, funds: vec![], allow: vec![(10, 1_000)], amount: 1_000, dur: 86_400, receiver: None },
+    ];
+    for _ in 0..8 { past.push(Op::NewEpoch); past.push(Op::Snapshot); }
+    past.push(Op::Claim { sender: 1 });
+    past.push(Op::NewEpoch); past.push(Op::Snapshot);
+    past.push(honest(&c, 3, 1, 1_200, Some(2), Some(12)));
+    past.push(honest(&c, 3, 1, 100_000, None, Some(20)));
+    past.extend(vec![Op::Claim { sender: 1 }, Op::NewEpoch, Op::Snapshot, Op::Claim { sender: 1 }, Op::Claim { sender: 2 },
+                     Op::CloseFlow { sender: 3, ident: Ident::Id(1) }, Op::CloseFlow { sender: 3, ident: Ident::Id(2) }]);
+    v.push(("flow_started_in_the_past", c.clone(), past));
     // (ii) close of an expanded flow returns only the original amount
     let c = cfg_base(10, 0);
     v.push(("witness_close_expanded", c.clone(), vec![
